@@ -34,7 +34,7 @@ EXPECT_PROBES = ["created_on_grid", "created_1us_before_grid", "created_1us_afte
                  "moving_window_variant", "align_to_in_dst_zone", "wall_clock_ticks_between_reads",
                  "resample_restarted_by_driver", "series_added_during_tick", "series_removed_while_running",
                  "slow_source", "source_stopped", "fast_source", "loop_lags_behind",
-                 "sample_stamped_just_before_window_end"]
+                 "sample_stamped_just_before_window_end", "more_than_32_series"]
 
 UNIX_EPOCH = datetime.fromtimestamp(0.0, tz=timezone.utc)
 PERIODS_US = [200_000, 1_000_000, 1_500_000, 3_000_000, 7_300_000]
@@ -241,6 +241,9 @@ def scenario(sim: Sim) -> None:
             rs.add_timeseries(name, rx_, sink)
 
         n0 = ch.int_between("series_at_creation", 1, 3)
+        if ch.chance("many_series", 0.06):
+            n0 = ch.int_between("series_at_creation_many", 30, 70)      # "any number of series"
+            sim.probe("more_than_32_series")
         for i in range(n0):
             add_series(f"s{i}")
             rec.at_creation.add(f"s{i}")
@@ -421,6 +424,9 @@ def scenario(sim: Sim) -> None:
             sim.spawn(rs_tx.send(req))
 
         n0 = ch.int_between("series_at_creation", 1, 3)
+        if ch.chance("many_series", 0.06):
+            n0 = ch.int_between("series_at_creation_many", 30, 70)      # "any number of series"
+            sim.probe("more_than_32_series")
         for i in range(n0):
             subscribe(10 + i, True)
         actor.start()
@@ -435,7 +441,7 @@ def scenario(sim: Sim) -> None:
                 when = first_grid + k * period_us + ch.choice("aim_off", [0, 0, -1, 1, 3, 20, 100])
             else:
                 when = pre + ch.int_between("add_at", 0, run_us)
-            sim.loop.at_abs(when, subscribe, 50 + j, False)
+            sim.loop.at_abs(when, subscribe, 500 + j, False)
 
         async def feeder() -> None:
             n = 0
@@ -448,7 +454,7 @@ def scenario(sim: Sim) -> None:
         # fault: the data source of one (later) subscription stops - the actor removes that series and goes on;
         # afterwards exact duplicates of the healthy subscriptions are sent (must have no effect)
         if nadd and ch.chance("source_stops", 0.3):
-            victim_cid = 50 + ch.draw("victim", nadd)
+            victim_cid = 500 + ch.draw("victim", nadd)
 
             async def stop_source() -> None:
                 key = ComponentMetricRequest("ns:Source", victim_cid, ComponentMetricId.ACTIVE_POWER, None).get_channel_name()
